@@ -38,6 +38,9 @@ Poly(via, grid, co, sh)     == [kind |-> "poly", via |-> via, grid |-> grid, co 
 Values(via, vals)           == [kind |-> "values", via |-> via, vals |-> vals]
 Text(vals)                  == [kind |-> "text", via |-> "string", vals |-> vals]
 Buffer(via, vals)           == [kind |-> via, via |-> via, vals |-> vals]      \* via = "buffer" | "args"
+BufferCut(via, vals, n, nd, keep) == [kind |-> via, via |-> via, vals |-> vals, tail |-> <<n, nd, keep>>]
+                               \* a last segment with the nd digits of n of which only `keep` lie inside the used size
+                               \* (no terminator; the other digits and the terminator stay behind the used data)
 FactorMax                   == [kind |-> "factormax", via |-> "desc"]           \* fac(4294967295): count wraps to 0
 FillSrc(fk, len, ld, a, b, c) == [kind |-> "fill", via |-> "fill", fk |-> fk, len |-> len, ld |-> ld, a |-> a, b |-> b, c |-> c]
                                \* mpt_values_linear (fk "linear": a..b) / mpt_values_bound (fk "bound": a, b.., c)
@@ -49,6 +52,11 @@ PolyVal(x, co, sh, j) ==     \* sum_j co[j] * (x + sh[j])^(n - j)
   IF j > Len(co) THEN <<0, 1>>
   ELSE RAdd(RMul(co[j], RPow(RAdd(x, IF j <= Len(sh) THEN sh[j] ELSE <<0, 1>>), Len(co) - j)), PolyVal(x, co, sh, j + 1))
 
+HasTail(s) == "tail" \in DOMAIN s
+RECURSIVE Pow10(_)
+Pow10(n) == IF n = 0 THEN 1 ELSE 10 * Pow10(n - 1)
+TailVal(s) == s.tail[1] \div Pow10(s.tail[2] - s.tail[3])     \* number read from the digits inside the used size
+
 Elems(s) ==
   CASE s.kind = "linear"   -> [i \in 1..(s.n + 1) |-> RAdd(s.a, RDivI(RMul(RInt(i - 1), RSub(s.b, s.a)), s.n))]
     [] s.kind = "range"    -> LET d == RSub(s.b, s.a)
@@ -57,7 +65,8 @@ Elems(s) ==
     [] s.kind = "factor"   -> [i \in 1..(s.n + 1) |-> IF i = 1 THEN s.init ELSE RMul(s.base, RPow(s.fact, i - 2))]
     [] s.kind = "boundary" -> [i \in 1..s.len |-> IF i = 1 THEN s.l ELSE IF i = s.len THEN s.r ELSE s.m]
     [] s.kind = "poly"     -> [i \in 1..Len(s.grid) |-> IF s.co = <<>> THEN s.grid[i] ELSE PolyVal(s.grid[i], s.co, s.sh, 1)]
-    [] s.kind \in {"values", "text", "buffer", "args"} -> s.vals
+    [] s.kind \in {"values", "text"} -> s.vals
+    [] s.kind \in {"buffer", "args"} -> IF HasTail(s) THEN Append(s.vals, RInt(TailVal(s))) ELSE s.vals
     [] s.kind = "factormax" -> <<>>
     [] s.kind = "fill" -> IF s.fk = "bound"
                           THEN [i \in 1..s.len |-> IF i = 1 THEN s.a ELSE IF i = s.len THEN s.c ELSE s.b]
@@ -119,7 +128,8 @@ Desc(s) ==
     [] s.kind = "boundary" /\ s.via = "profile" -> "bound " \o RText(s.l) \o " " \o RText(s.m) \o " " \o RText(s.r)
     [] s.kind = "poly" -> (IF s.via = "profile" THEN "poly " ELSE "") \o Join(s.co, " ") \o (IF s.sh = <<>> THEN "" ELSE " : " \o Join(s.sh, " "))
     [] s.kind \in {"values", "text"} -> Join(s.vals, " ")
-    [] s.kind \in {"buffer", "args"} -> Join(s.vals, "|")
+    [] s.kind \in {"buffer", "args"} ->
+         IF HasTail(s) THEN (IF s.vals = <<>> THEN "" ELSE Join(s.vals, "|") \o "|") \o ToString(s.tail[1]) ELSE Join(s.vals, "|")
     [] OTHER -> ""
 
 CreateArg(s) ==
@@ -131,7 +141,8 @@ CreateArg(s) ==
     [] s.kind = "poly"   -> [via |-> IF s.via = "profile" THEN "poly" ELSE "polyapi", grid |-> s.grid, desc |-> Desc(s)]
     [] s.kind = "values" -> [via |-> s.via, desc |-> Desc(s)]              \* "values" | "desc"
     [] s.kind = "text"   -> [via |-> "string", desc |-> Desc(s)]
-    [] s.kind \in {"buffer", "args"} -> [via |-> s.kind, desc |-> Desc(s)]
+    [] s.kind \in {"buffer", "args"} ->       \* cut: bytes at the end of the data that lie behind the used size
+         [via |-> s.kind, desc |-> Desc(s), cut |-> IF HasTail(s) THEN 1 + s.tail[2] - s.tail[3] ELSE 0]
     [] OTHER -> [via |-> "desc", desc |-> Desc(s)]
 
 (* Tier 2: the double of an exactly computed small dyadic element *)
